@@ -204,6 +204,11 @@ class Interp:
         k = len(self.trail)
         if k < len(self.prefix):
             taken = self.prefix[k]
+        elif getattr(self, "lazy_feasibility", False):
+            # fork without asking the solver; infeasible paths are discarded by the caller's
+            # satisfiability check of the final path condition
+            taken = True
+            self.new_alts.append(list(self.trail) + [False])
         else:
             t_ok = self.feasible(cond)
             f_ok = self.feasible(z3.Not(cond))
